@@ -649,6 +649,11 @@ def exec (cfg : Cfg) (st : St) : Act → St × List Ob × List Act
           match getBrokerClient st sl.node with
           | .error kd => (st, [], [.sendFail s kd])
           | .ok (st1, b, obs1) =>
+            -- the encoder refuses a repeated (topic, partition) in one request (`ValueError`, raised after
+            -- the broker client was looked up): the send fails, requests already issued stay in flight
+            if clientEncoderRefusesDuplicates && (sortHP (sl.idxs.filterMap (fun i => x.keys[i]?))).length != sl.idxs.length then
+              (st1, obs1, [.sendFail s (.other "ValueError")])
+            else
             let mr := makeRequest cfg st1 b (.slot s j) x.expect (.payloads sl.idxs (sl.idxs.filterMap (fun i => x.keys[i]?))) none
             (setSend mr.1 s (fun y => match y.phase with
               | .inflight sls => { y with phase := .inflight ((List.range sls.length).zip sls |>.map (fun e => if e.1 == j then { e.2 with k := some mr.2.1 } else e.2)) }
